@@ -440,7 +440,7 @@ func cmdCheck(args []string) {
 			doc := replayDoc{Property: id, Entry: entryName, Pkg: e.Pkg, Fn: e.Fn, Label: v.Label, Msg: v.Msg, Pos: v.Pos, Params: params, Inputs: v.Inputs, Stack: v.Stack}
 			rdir := filepath.Join(verifDir, "replays", id)
 			os.MkdirAll(rdir, 0o755)
-			san := strings.NewReplacer("/", "_", ":", "_", "@", "_", " ", "_").Replace(v.Label)
+			san := strings.NewReplacer("/", "_", ":", "_", "@", "_", " ", "_", ">", "", "<", "", "=", "-", "(", "", ")", "", "*", "").Replace(v.Label)
 			rpath := filepath.Join(rdir, fmt.Sprintf("%s-%s.json", e.Fn, san))
 			b, _ := json.MarshalIndent(doc, "", " ")
 			os.WriteFile(rpath, b, 0o644)
